@@ -1,42 +1,18 @@
-(* Single entry point of the executable model: op name + argument value. *)
-From Coq Require Import NArith ZArith List String.
-From NGS Require Import Val Ints Morton.
+(* Single entry point of the executable model: op name + argument value.
+   Each property cluster contributes a fragment D_xxx.v exporting a function
+   [string -> val -> option val]; the first fragment that knows the op answers. *)
+From Coq Require Import List String.
+From NGS Require Import Val D_C09.
 Import ListNotations.
 Open Scope string_scope.
 
-Definition d_c09 (op : string) (a : val) : option val :=
-  match op, a with
-  | "mk_vspec", VL [cs; sz] =>
-      match getZs cs, getZs sz with
-      | Some cs, Some sz =>
-          Some (v_outcome (fun v => VL [vNs (vs_grid v); vNs (vs_nbits v)]) (mk_vspec cs sz))
-      | _, _ => Some bad end
-  | "cmc", VL [cs; sz; co] =>
-      match getZs cs, getZs sz, getZs co with
-      | Some cs, Some sz, Some co =>
-          Some (v_outcome vN (bind (mk_vspec cs sz) (fun v => cmc_model v co)))
-      | _, _, _ => Some bad end
-  | "get_cmc", VL [cs; sz; VZ x; VZ y; VZ z] =>
-      match getZs cs, getZs sz with
-      | Some cs, Some sz =>
-          Some (v_outcome vN (bind (mk_vspec cs sz) (fun v => get_cmc_model v x y z)))
-      | _, _ => Some bad end
-  | "cmc_spec", VL [g; p] =>
-      match getNs g, getNs p with
-      | Some g, Some p => Some (VL [vN (cmc_spec g p); vbool (in_gridb g p); vNs (uncmc g (cmc_spec g p))])
-      | _, _ => Some bad end
-  | "routing", VL [p; m; s; id] =>
-      match getN p, getN m, getN s, getN id with
-      | Some p, Some m, Some s, Some id =>
-          Some (VL [vN (shard_key_model p m s id); vN (minishard_key_model p m id);
-                    VS (shard_name_model s (shard_key_model p m s id));
-                    vN (header_len_model m);
-                    vN (spec_shard p m s id); vN (spec_minishard p m id);
-                    VS (spec_name s (spec_shard p m s id))])
-      | _, _, _, _ => Some bad end
-  | _, _ => None
+Definition fragments : list (string -> val -> option val) :=
+  [ d_c09 ].
+
+Fixpoint first_some (fs : list (string -> val -> option val)) (op : string) (a : val) : val :=
+  match fs with
+  | [] => VT "unknown-op"
+  | f :: r => match f op a with Some v => v | None => first_some r op a end
   end.
 
-Definition dispatch (op : string) (a : val) : val :=
-  match d_c09 op a with Some v => v | None =>
-  VT "unknown-op" end.
+Definition dispatch (op : string) (a : val) : val := first_some fragments op a.
